@@ -1,10 +1,96 @@
 import PewDriver.Util
+import PewModel.Colocal
 open Lean
 namespace PewDriver.C14
-open PewDriver
+open PewDriver Pew.Colocal
 
-def handle (op : String) (_req : Json) : R Json := do
+def mkImg (n0 n1 : Nat) (data : Array Rat) : Img Rat :=
+  { n0 := n0, n1 := n1, get := fun i j => if i < n0 ∧ j < n1 then data.getD (i * n1 + j) 0 else 0 }
+
+def mkMask (n0 n1 : Nat) (data : Array Bool) : Nat → Nat → Bool :=
+  fun i j => if i < n0 ∧ j < n1 then data.getD (i * n1 + j) false else false
+
+def flat (a : Img Rat) : List Rat := (pixels a.n0 a.n1).map (fun q => a.get q.1 q.2)
+
+/-- smallest non-zero |deviation from the mean| (for the float margin of the ICQ signs) -/
+def minDev (x : List Rat) : Option Rat :=
+  let m := mean x
+  (x.filterMap (fun v => let d := if v - m < 0 then m - v else v - m
+                         if d = 0 then none else some d)).foldl
+    (fun acc d => match acc with | none => some d | some a => some (min a d)) none
+
+def handle (op : String) (req : Json) : R Json := do
   match op with
+  | "c14.coeff" =>
+    let x ← getList asRat req "x"
+    let y ← getList asRat req "y"
+    if x.length ≠ y.length then throw "x/y length mismatch"
+    let tx ← fld req "tx" >>= asOpt asRat
+    let ty ← fld req "ty" >>= asOpt asRat
+    let (m1, m2) := manders x y tx ty
+    pure (jObj [
+      ("cov", jRat (cov x y)), ("cov_yx", jRat (cov y x)), ("cov_centred", jRat (covCentred x y)),
+      ("var_x", jRat (var x)), ("var_y", jRat (var y)),
+      ("mean_xy", jRat (mean (mulL x y))), ("mean_x", jRat (mean x)), ("mean_y", jRat (mean y)),
+      ("r_sq", jRat (pearsonSq x y)), ("r_sign", jInt (pearsonSign x y)),
+      ("icq", jRat (icq x y)), ("icq_spec", jRat (icqSpec x y)),
+      ("min_dev_x", jOpt jRat (minDev x)), ("min_dev_y", jOpt jRat (minDev y)),
+      ("m1", jRat m1), ("m2", jRat m2),
+      ("m1_spec", jRat (mandersSpec1 x y (ty.getD (minOf y)))),
+      ("m2_spec", jRat (mandersSpec1 y x (tx.getD (minOf x)))),
+      ("sum_x", jRat x.sum), ("sum_y", jRat y.sum)])
+  | "c14.shuffle" =>
+    let n0 ← getNat req "n0"
+    let n1 ← getNat req "n1"
+    let xd ← getList asRat req "x"
+    let md ← getList asBool req "mask"
+    let b0 ← getNat req "b0"
+    let b1 ← getNat req "b1"
+    let padMode ← getBool req "pad"
+    let part ← getBool req "partial"
+    let nidx ← fld req "nidx" >>= asOpt (asList asNat)
+    let outd ← fld req "out" >>= asOpt (asList asRat)
+    if xd.length ≠ n0 * n1 ∨ md.length ≠ n0 * n1 then throw "data/shape mismatch"
+    if b0 = 0 ∨ b1 = 0 then throw "zero block"
+    let x := mkImg n0 n1 xd.toArray
+    let mask := mkMask n0 n1 md.toArray
+    let idx := shuffleIdx x mask b0 b1 padMode part
+    let model := nidx.map (fun s => flat (shuffleBlocks x mask b0 b1 padMode part s))
+    let spec ← match outd with
+      | none => pure Json.null
+      | some od =>
+        if od.length ≠ n0 * n1 then throw "out/shape mismatch"
+        let out := mkImg n0 n1 od.toArray
+        let applies := conservedApplies x b0 b1 padMode
+        pure (jObj [("outside_fixed", jBool (specOutside x out mask b0 b1 padMode part)),
+                    ("blocks_from_input", jBool (specBlocks x out mask b0 b1 padMode part)),
+                    ("conserved_applies", jBool applies),
+                    ("conserved", jBool (!applies || specConserved x out))])
+    pure (jObj [("idx", jList jNat idx), ("model", jOpt (jList jRat) model), ("spec", spec)])
+  | "c14.prob" =>
+    let n0 ← getNat req "n0"
+    let n1 ← getNat req "n1"
+    let xd ← getList asRat req "x"
+    let yd ← getList asRat req "y"
+    let md ← getList asBool req "mask"
+    let b ← getNat req "block"
+    let part ← getBool req "partial"
+    let sigmas ← getList (asList asNat) req "sigmas"
+    if xd.length ≠ n0 * n1 ∨ yd.length ≠ n0 * n1 ∨ md.length ≠ n0 * n1 then throw "data/shape mismatch"
+    if b = 0 then throw "zero block"
+    let x := mkImg n0 n1 xd.toArray
+    let y := mkImg n0 n1 yd.toArray
+    let mask := mkMask n0 n1 md.toArray
+    let xs := masked x mask
+    let ys := masked y mask
+    let steps := probSteps x y mask b part sigmas
+    pure (jObj [("idx", jList jNat (shuffleIdx y mask b b false part)),
+                ("n_masked", jNat xs.length),
+                ("cov", jRat (cov xs ys)), ("var_x", jRat (var xs)), ("var_y", jRat (var ys)),
+                ("mean_xy", jRat (mean (mulL xs ys))), ("mean_x", jRat (mean xs)), ("mean_y", jRat (mean ys)),
+                ("steps", jList (fun (s : ProbStep) =>
+                    jObj [("cov", jRat s.cov), ("var_y", jRat s.vy), ("gt", jBool s.gt), ("same", jBool s.same)]) steps),
+                ("p", jRat (pearsonProbability x y mask b part sigmas))])
   | _ => throw s!"unknown op {op}"
 
 end PewDriver.C14
